@@ -201,6 +201,7 @@ type LockWorld struct {
 	Local   map[*ssa.Function]*FuncLocks
 	Entry   map[*ssa.Function]LockSet // locks held on entry on every call path from the entry set
 	Reached map[*ssa.Function]bool
+	isEntry map[*ssa.Function]bool
 }
 
 // NewLockWorld computes entry locksets for every function reachable from the
@@ -213,6 +214,7 @@ func NewLockWorld(g *RepoCG, entries []*ssa.Function) *LockWorld {
 	for _, e := range entries {
 		isEntry[e] = true
 	}
+	w.isEntry = isEntry
 	for f := range w.Reached {
 		w.Local[f] = LocksIn(f)
 	}
@@ -269,6 +271,45 @@ func NewLockWorld(g *RepoCG, entries []*ssa.Function) *LockWorld {
 		}
 	}
 	return w
+}
+
+// Witness returns a call chain from an entry to f along which lock key is not
+// held in mode need when f is entered.
+func (w *LockWorld) Witness(f *ssa.Function, key string, need int) []string {
+	var chain []string
+	seen := map[*ssa.Function]bool{}
+	cur := f
+	for i := 0; i < 50 && cur != nil && !seen[cur]; i++ {
+		seen[cur] = true
+		chain = append([]string{FuncName(cur)}, chain...)
+		if w.isEntry[cur] {
+			break
+		}
+		var next *ssa.Function
+		for _, e := range w.G.In[cur] {
+			if !w.Reached[e.Caller] {
+				continue
+			}
+			var at LockSet
+			switch e.Site.(type) {
+			case *ssa.Go:
+				at = LockSet{}
+			case *ssa.Defer:
+				at = w.Entry[e.Caller]
+			default:
+				at = union(w.Entry[e.Caller], w.Local[e.Caller].At[e.Site])
+			}
+			if at[key] < need && !seen[e.Caller] {
+				next = e.Caller
+				if _, isGo := e.Site.(*ssa.Go); isGo {
+					chain = append([]string{"go"}, chain...)
+				}
+				break
+			}
+		}
+		cur = next
+	}
+	return chain
 }
 
 // HeldAt returns the locks held at an instruction of a reached function:
